@@ -19,6 +19,9 @@ pub fn run(args: &Args, out: &mut dyn Write) -> Stats {
         return s;
     }
     let mut g = Gen::new(args);
+    for t in dnsgen::at16k_cases(&mut g.r, &mut g.stats) {
+        writeln!(out, "{}", t.0).unwrap();
+    }
     for i in 0..args.n {
         let t = if let Some(k) = g.big_slot(i) {
             match k % 10 {
